@@ -62,6 +62,8 @@ type c17In struct {
 	Text  string `json:"text,omitempty"` // base64 (arbitrary bytes)
 	Build bool   `json:"build,omitempty"`
 	Typed bool   `json:"typed,omitempty"`
+	// class spell: destination ports (TCP/IPv4 packets) routed through the userspace matcher built from the typed configuration
+	Probes []int `json:"probes,omitempty"`
 	Entry string `json:"entry,omitempty"` // include tree: path of the entry file (Text unused)
 	// include tree: files whose opens/reads are observed with inotify while Merge runs, and FIFOs
 	// (all of them forbidden to the merger) that are probed for a reader while Merge runs
@@ -90,6 +92,7 @@ type c17Out struct {
 	Dns     c17Stage          `json:"dns"`
 	NSets   int               `json:"nsets,omitempty"`
 	Typed   map[string]string `json:"typed,omitempty"`
+	Probed  []string          `json:"probed,omitempty"` // per probe: "<outbound name>|<mark>|<must>" or "err:<message>"
 	Merge   c17Stage          `json:"merge"`
 	Secs    map[string]string `json:"secs,omitempty"` // include tree: section name -> dump of merged items
 	Entries []string          `json:"entries,omitempty"`
@@ -343,10 +346,60 @@ func c17TypedView(conf *config.Config) map[string]string {
 	m["#nrules"] = strconv.Itoa(len(conf.Routing.Rules))
 	if f, err := config.ParseFunctionOrString(conf.Routing.Fallback); err == nil && f != nil {
 		m["#fallback"] = f.Name
+		m["#fallback_out"] = c17OutView(f)
 	} else {
 		m["#fallback"] = "<invalid>"
+		m["#fallback_out"] = "<invalid>"
 	}
+	// the routing rules as the typed configuration carries them (after config.New's patch stage, before any optimiser)
+	var conds, outs []string
+	for _, rule := range conf.Routing.Rules {
+		if rule == nil {
+			conds, outs = append(conds, "<nil>"), append(outs, "<nil>")
+			continue
+		}
+		conds = append(conds, c17DumpFns(rule.AndFunctions))
+		outs = append(outs, c17OutView(&rule.Outbound))
+	}
+	m["#rule_conds"] = strings.Join(conds, "\n")
+	m["#rule_outs"] = strings.Join(outs, "\n")
+	m["bootstrap_resolver"] = g.BootstrapResolver
+	fos := func(v config.FunctionOrString) string {
+		if v == nil {
+			return "<unset>"
+		}
+		f, err := config.ParseFunctionOrString(v)
+		if err != nil || f == nil {
+			return "<invalid>"
+		}
+		return c17DumpFn(f)
+	}
+	m["#dns_req_fallback"] = fos(conf.Dns.Routing.Request.Fallback)
+	m["#dns_resp_fallback"] = fos(conf.Dns.Routing.Response.Fallback)
 	return m
+}
+
+// c17OutView renders one outbound of the typed configuration as (name, must
+// flag, every other parameter in order): the documentation does not say where
+// the `must` of a `must_x` spelling sits among the parameters.
+func c17OutView(f *config_parser.Function) string {
+	if f == nil {
+		return "<nil>"
+	}
+	must := false
+	var rest []*config_parser.Param
+	for _, p := range f.Params {
+		if p != nil && p.Key == "" && p.Val == "must" && p.AndFunctions == nil {
+			must = true
+			continue
+		}
+		rest = append(rest, p)
+	}
+	s := ""
+	if f.Not {
+		s = "!"
+	}
+	return s + strconv.Quote(f.Name) + " must=" + strconv.FormatBool(must) + " (" + c17DumpParams(rest) + ")"
 }
 
 func c17ObserveText(in c17In, text string) (o c17Out) {
@@ -402,8 +455,31 @@ func c17ObserveText(in c17In, text string) (o c17Out) {
 		}
 		o.NSets = len(b.rules)
 		_ = b.KernspaceSnapshot()
-		_, err = b.BuildUserspace()
-		return err
+		matcher, err := b.BuildUserspace()
+		if err != nil || len(in.Probes) == 0 {
+			return err
+		}
+		// second observation: what the compiled program does with a TCP/IPv4 packet to each probe port
+		id2name := map[uint8]string{}
+		for n, id := range name2id {
+			id2name[id] = n
+		}
+		var src, dst, mac [16]uint8
+		copy(src[10:], []byte{0xff, 0xff, 10, 0, 0, 1})
+		copy(dst[10:], []byte{0xff, 0xff, 203, 0, 113, 9})
+		for _, port := range in.Probes {
+			ob, mark, must, merr := matcher.Match(src, dst, 40000, uint16(port), consts.IpVersion_4, consts.L4ProtoType_TCP, "", [16]uint8{}, 0, mac)
+			if merr != nil {
+				o.Probed = append(o.Probed, "err:"+merr.Error())
+				continue
+			}
+			name, ok := id2name[uint8(ob)]
+			if !ok {
+				name = fmt.Sprintf("<outbound id %d>", uint8(ob))
+			}
+			o.Probed = append(o.Probed, fmt.Sprintf("%s|%d|%v", name, mark, must))
+		}
+		return nil
 	})
 	o.Dns = c17Guard(func() error {
 		_, err := dns.New(&conf.Dns, &dns.NewOption{
@@ -908,6 +984,7 @@ type c17Case struct {
 	text   string
 	doc    *vk.CDoc
 	meta   *vk.CfgMeta
+	spell  *vk.SpellMeta // class spell
 	desc   []string
 	ladder [3]string // builder, n, tail
 	pair   *c17Case  // class stray: the same document without the inserted character
@@ -1308,12 +1385,15 @@ func (j *c17Judge) judgeText(c *c17Case, o c17Out) {
 				j.report("typed:"+k, fmt.Sprintf("typed configuration field %s = %q, text spells %q", k, o.Typed[k], exp[k]), w)
 			}
 		}
+		j.judgeSpelledRouting(c, o, witness)
 		if o.Routing.St == "err" {
 			j.report("valid-config-routing-build-error:"+c17ErrClass(o.Routing.Msg), "routing program valid per documentation failed to compile: "+o.Routing.Msg, witness())
 		}
 		if o.Dns.St == "err" {
 			j.report("valid-config-dns-build-error:"+c17ErrClass(o.Dns.Msg), "dns section valid per documentation failed to build: "+o.Dns.Msg, witness())
 		}
+	case c.class == "spell":
+		j.judgeSpell(c, o, witness)
 	case strings.HasPrefix(c.class, "reject:"):
 		kind := strings.TrimPrefix(c.class, "reject:")
 		if !accepted {
@@ -1326,6 +1406,168 @@ func (j *c17Judge) judgeText(c *c17Case, o c17Out) {
 			m.Count("reject_"+kind+"_clean_error", 1)
 			m.Count("reject_mutants_clean_error", 1)
 			m.Distinct("rejnew|" + kind + "|" + c17ErrClass(o.New.Msg))
+		}
+	}
+}
+
+// judgeSpelledRouting: the routing rules and the fallback of the typed
+// configuration config.New returned (after its patch stage and defaults) against
+// what the generator's AST spells, rule by rule: conditions as written, outbound
+// name / must flag / every other outbound parameter in written order, with the
+// documented normalisation only (`must_x(p...)` is `x(must, p...)`).
+func (j *c17Judge) judgeSpelledRouting(c *c17Case, o c17Out, witness func() map[string]any) {
+	m := j.m
+	rules, fb := vk.RoutingSpelled(c.doc)
+	split := func(s string) []string {
+		if s == "" {
+			return nil
+		}
+		return strings.Split(s, "\n")
+	}
+	gotC, gotO := split(o.Typed["#rule_conds"]), split(o.Typed["#rule_outs"])
+	if len(gotC) != len(rules) || len(gotO) != len(rules) {
+		w := witness()
+		w["rules_written"], w["rules_in_typed_configuration"] = len(rules), len(gotO)
+		j.report("typed-rules:count", fmt.Sprintf("typed configuration carries %d routing rules, the text spells %d", len(gotO), len(rules)), w)
+		return
+	}
+	for i, rl := range rules {
+		m.Count("typed_rules_checked", 1)
+		m.Count("typed_outbound_spelling_"+rl.Out.Class, 1)
+		if gotC[i] != rl.Conds {
+			w := witness()
+			w["rule"], w["expected"], w["got"] = i, rl.Conds, gotC[i]
+			j.report("typed-rule:conditions", fmt.Sprintf("rule %d of the typed configuration has conditions %s, the text spells %s", i, gotC[i], rl.Conds), w)
+		}
+		if exp := rl.Out.View(); gotO[i] != exp {
+			w := witness()
+			w["rule"], w["expected"], w["got"] = i, exp, gotO[i]
+			j.report("typed-outbound:"+rl.Out.Class+":rule", fmt.Sprintf("rule %d of the typed configuration has outbound %s, the text spells %s", i, gotO[i], exp), w)
+		}
+	}
+	if fb == nil {
+		m.Count("typed_fallback_not_written_default_observed_"+o.Typed["#fallback"], 1)
+		return
+	}
+	m.Count("typed_fallbacks_checked", 1)
+	m.Count("typed_outbound_spelling_"+fb.Class, 1)
+	if exp := fb.View(); o.Typed["#fallback_out"] != exp {
+		w := witness()
+		w["expected"], w["got"] = exp, o.Typed["#fallback_out"]
+		j.report("typed-outbound:"+fb.Class+":fallback", fmt.Sprintf("the typed configuration has fallback %s, the text spells %s", o.Typed["#fallback_out"], exp), w)
+	}
+}
+
+// judgeSpell: class spell (verifkit.GenSpellDoc): combinations of equivalent
+// spellings and of the keys that config.New's patch stage rewrites.
+func (j *c17Judge) judgeSpell(c *c17Case, o c17Out, witness func() map[string]any) {
+	m := j.m
+	sp := c.spell
+	if o.Parse.St != "ok" {
+		return // already reported by the fidelity oracle
+	}
+	if o.New.St != "ok" {
+		if sp.MayRejectNew {
+			m.Count("spell_malformed_value_rejected", 1)
+			for _, cl := range sp.Classes {
+				if cl == "bootstrap:invalid" {
+					m.Count("spell_"+cl, 1)
+				}
+			}
+			return
+		}
+		j.report("valid-config-rejected:"+c17ErrClass(o.New.Msg), "configuration valid per documentation rejected by config.New: "+o.New.Msg, witness())
+		return
+	}
+	if sp.MayRejectNew {
+		m.Count("spell_malformed_value_accepted", 1)
+	}
+	for _, cl := range sp.Classes {
+		m.Count("spell_"+cl, 1)
+	}
+	// (a) typed fields: written values kept, a default only where the key is absent
+	exp := c17ExpectedTyped(sp.Cfg)
+	switch sp.Method {
+	case "invalid":
+		// what becomes of a word that is no HTTP method is not documented: recorded
+		delete(exp, "tcp_check_http_method")
+		m.Count("spell_method_invalid_observed_"+o.Typed["tcp_check_http_method"], 1)
+	}
+	switch sp.Bootstrap {
+	case "valid4", "valid6":
+		exp["bootstrap_resolver"] = sp.BootstrapVal
+	default:
+		m.Count("spell_bootstrap_"+sp.Bootstrap+"_observed_"+o.Typed["bootstrap_resolver"], 1)
+	}
+	dnsFb := func(key, written string) {
+		if written != "" {
+			exp[key] = strconv.Quote(written) + "()"
+			return
+		}
+		m.Count("spell_"+strings.TrimPrefix(key, "#")+"_not_written_observed_"+o.Typed[key], 1)
+	}
+	dnsFb("#dns_req_fallback", sp.DnsReq)
+	dnsFb("#dns_resp_fallback", sp.DnsResp)
+	keys := make([]string, 0, len(exp))
+	for k := range exp {
+		keys = append(keys, k)
+	}
+	sort.Strings(keys)
+	for _, k := range keys {
+		m.Count("typed_fields_checked", 1)
+		if o.Typed[k] != exp[k] {
+			w := witness()
+			w["field"], w["expected"], w["got"] = k, exp[k], o.Typed[k]
+			j.report("typed:"+k, fmt.Sprintf("typed configuration field %s = %q, text spells %q", k, o.Typed[k], exp[k]), w)
+		}
+	}
+	// (b) routing rules and fallback, rule by rule
+	j.judgeSpelledRouting(c, o, witness)
+	// (c) the programs compiled from the typed configuration
+	if o.Routing.St == "err" {
+		j.report("valid-config-routing-build-error:"+c17ErrClass(o.Routing.Msg), "routing program valid per documentation failed to compile: "+o.Routing.Msg, witness())
+		return
+	}
+	if o.Dns.St == "err" {
+		if sp.DnsShape == "empty-section" {
+			m.Count("spell_empty_dns_section_not_built", 1) // a dns section without any upstream: not documented either way
+		} else {
+			j.report("valid-config-dns-build-error:"+c17ErrClass(o.Dns.Msg), "dns section valid per documentation failed to build: "+o.Dns.Msg, witness())
+		}
+	}
+	if len(o.Probed) != len(sp.Probes) {
+		m.Count("spell_probes_not_observed", 1)
+		return
+	}
+	rules, fb := vk.RoutingSpelled(c.doc)
+	for k, pr := range sp.Probes {
+		// reference: the only rule whose port list holds the probe port decides; must_rules passes
+		// the packet on (nothing else matches it) to the fallback with the must flag set
+		out, sticky, where := fb, false, "fallback"
+		if pr.Rule >= 0 {
+			if ro := rules[pr.Rule].Out; ro.Class == "must_rules:none" {
+				sticky, where = true, "must_rules-then-fallback"
+			} else {
+				out, where = &ro, "rule"
+			}
+		}
+		if out == nil {
+			m.Count("spell_probes_to_unwritten_fallback", 1)
+			continue
+		}
+		mark, ok := out.Mark()
+		if !ok {
+			m.Count("spell_probes_mark_unreadable", 1)
+			continue
+		}
+		m.Count("spell_probes_checked", 1)
+		m.Count("spell_probes_"+where, 1)
+		want := fmt.Sprintf("%s|%d|%v", out.Name, mark, out.Must || sticky)
+		if o.Probed[k] != want {
+			w := witness()
+			w["probe"] = map[string]any{"l4proto": "tcp", "ipversion": 4, "dport": pr.Port, "rule": pr.Rule}
+			w["expected"], w["got"] = want, o.Probed[k]
+			j.report("compiled-outbound:"+out.Class+":"+where, fmt.Sprintf("a TCP/IPv4 packet to port %d is routed as %s by the program compiled from the typed configuration, the text spells %s (outbound|mark|must)", pr.Port, o.Probed[k], want), w)
 		}
 	}
 }
@@ -2164,6 +2406,7 @@ func TestVerifC17(t *testing.T) {
 	part := os.Getenv("VERIF_PART")
 	m := vk.NewMonitor("C17", part, "exploration",
 		"inputs: grammar-generated texts with their AST (free-form, every production, arbitrary layout/comments), documentation-valid full configurations, "+
+			"configurations combining equivalent spellings / keys rewritten by config.New's patch stage (every combination class required), "+
 			"semantic reject-mutants, exhaustive single-token edits of small bases, random token edits, arbitrary bytes, stress shapes, a match-set size ladder and include trees on disk; "+
 			"distinct = structure hash of the parse result (accepted) / generator class x first-error class (rejected) / include-tree class; "+
 			"non-trivial = every input runs the whole production front end in a child process")
@@ -2171,7 +2414,9 @@ func TestVerifC17(t *testing.T) {
 	m.Assume("children are re-executions of this test binary; the id of the running input is on disk before dae is called, so crashes/hangs are attributed",
 		"oracle for fidelity is the generator's own AST; the walker's Param for `k: a, b` is compared with the documented equivalent 'a,b'",
 		"builders are driven without a datapath: routing.NewNormalizedProgram (production optimiser list) -> NewRoutingMatcherBuilderFromProgram(bpf=nil) -> BuildUserspace, dns.New; BuildKernspace (kernel map sizes) is not executed, so a program beyond the supported size that contains no domain condition past the limit is only recorded",
-		"a hang is an input not finished after 30 s of wall clock in the child, judged only if reproduced when re-run alone")
+		"a hang is an input not finished after 30 s of wall clock in the child, judged only if reproduced when re-run alone",
+		"typed routing oracle: the only normalisation applied to a written outbound is the documented `must_x` == `x(must)` (must_rules reserved); the place of `must` among the parameters is not judged; what an unwritten routing/dns fallback, an unknown HTTP method or a malformed bootstrap_resolver becomes is recorded, not judged",
+		"class spell probes: rule i is the only rule whose dport list holds its probe ports (extra conditions are true for a TCP/IPv4/dscp 0 packet), so the reference decision is rule i's written outbound, or the fallback with must set after a must_rules rule; marks are decimal or 0x literals")
 	dir, err := os.MkdirTemp(filepath.Join(vk.BuildDir(), "run"), "c17-*")
 	if err != nil {
 		dir, err = os.MkdirTemp("", "dae-17-run-*")
@@ -2240,6 +2485,21 @@ func TestVerifC17(t *testing.T) {
 				cfgDocs = append(cfgDocs, d)
 				validTexts = append(validTexts, c.text)
 			}
+		}
+		// (B2) combinations of equivalent spellings / of the keys the patch stage of config.New rewrites;
+		// document k is built around combination class k mod len(SpellClasses())
+		for i, n := 0, vk.Scale(1500, 1500); i < n; i++ {
+			d, sp := vk.GenSpellDoc(r, round*n+i)
+			style := 1
+			if r.IntN(3) == 0 {
+				style = 0
+			}
+			c := &c17Case{class: "spell", doc: d, spell: sp, text: vk.Layout(d.Tokens(), r, style)}
+			c.in.Build, c.in.Typed = true, true
+			for _, pr := range sp.Probes {
+				c.in.Probes = append(c.in.Probes, pr.Port)
+			}
+			add(c)
 		}
 		for i, n := 0, vk.Scale(1200, 1200); i < n; i++ {
 			kind := vk.RejectKinds[i%len(vk.RejectKinds)]
@@ -2474,7 +2734,12 @@ func TestVerifC17(t *testing.T) {
 		"ladder_within_limit_built", "trees_merged", "trees_rejected", "cycle_rejected", "section_order_checked_equal",
 		"decoy_markers_absent", "bad_include_rejected", "texts_edit", "texts_mutate", "texts_bytes", "texts_stress",
 		"trees_file_access_observed", "file_access_positive_control_seen", "named_forbidden_file_untouched", "named_forbidden_fifo_untouched",
-		"named_non_syntax_decoy_absent_from_error", "bad_entry_rejected")
+		"named_non_syntax_decoy_absent_from_error", "bad_entry_rejected",
+		"typed_rules_checked", "typed_fallbacks_checked", "spell_probes_checked", "spell_probes_rule", "spell_probes_fallback", "spell_probes_must_rules-then-fallback")
+	// every combination class of the spell generator must have been generated, accepted and judged
+	for _, cl := range vk.SpellClasses() {
+		m.Require("spell_" + cl)
+	}
 	m.Done(t)
 }
 
